@@ -8,110 +8,49 @@ import Rooc.DisplayProgram
 namespace Rooc.Syntax.Proofs
 open Rooc Rooc.Syntax Rooc.Display
 
-theorem atom_expr {a : PExp} {tk : Tok} (h : Atom a tk) : isExprTok tk = true := by cases h <;> rfl
-theorem binToks_expr {o : BinOp} {tk : Tok} (h : tk ∈ binToks o) : isExprTok tk = true := by
-  cases o <;> simp [binToks] at h <;> (first | (subst h; rfl) | (rcases h with h | h <;> subst h <;> rfl))
-theorem unToks_expr {u : UnOp} {tk : Tok} (h : tk ∈ unToks u) : isExprTok tk = true := by
-  cases u <;> simp [unToks] at h <;> (first | (subst h; rfl) | (rcases h with h | h <;> subst h <;> rfl))
-
-mutual
-theorem tk_expr {t : PExp} {ts : List Tok} {items : List Item} : Tk t ts items → ∀ tk ∈ ts, isExprTok tk = true
-  | .atom ha => by intro tk h; simp at h; subst h; exact atom_expr ha
-  | .paren hk => by
-    intro tk h
-    simp at h
-    rcases h with rfl | h | rfl
-    · rfl
-    · exact tk_expr hk tk h
-    · rfl
-  | .un hk hu => by
-    intro tk h
-    rcases List.mem_cons.mp h with rfl | h
-    · exact unToks_expr hu
-    · exact tk_expr hk tk h
-  | .bin hl hr _ _ ho => by
-    intro tk h
-    rcases List.mem_append.mp h with h | h
-    · exact tk_expr hl tk h
-    · rcases List.mem_cons.mp h with rfl | h
-      · exact binToks_expr ho
-      · exact tk_expr hr tk h
-  | .imul hj hv _ => by
-    intro tk h
-    rcases List.mem_append.mp h with h | h
-    · exact juxt_expr hj tk h
-    · cases hv with
-      | none => simp at h
-      | var n _ => simp at h; subst h; rfl
-  | .call _ _ ha => by
-    intro tk h
-    simp at h
-    rcases h with rfl | rfl | h | rfl
-    · rfl
-    · rfl
-    · exact args_expr ha tk h
-    · rfl
-theorem juxt_expr {es : List PExp} {ts : List Tok} : Juxt es ts → ∀ tk ∈ ts, isExprTok tk = true
-  | .nil => by simp
-  | .int _ hj => by
-    intro tk h
-    rcases List.mem_cons.mp h with rfl | h
-    · rfl
-    · exact juxt_expr hj tk h
-  | .num hj => by
-    intro tk h
-    rcases List.mem_cons.mp h with rfl | h
-    · rfl
-    · exact juxt_expr hj tk h
-  | .paren hk hj => by
-    intro tk h
-    simp at h
-    rcases h with rfl | h | rfl | h
-    · rfl
-    · exact tk_expr hk tk h
-    · rfl
-    · exact juxt_expr hj tk h
-theorem args_expr {as : List PExp} {ts : List Tok} : Args as ts → ∀ tk ∈ ts, isExprTok tk = true
-  | .nil => by simp
-  | .one hk => tk_expr hk
-  | .cons hk ha => by
-    intro tk h
-    rcases List.mem_append.mp h with h | h
-    · exact tk_expr hk tk h
-    · rcases List.mem_cons.mp h with rfl | h
-      · rfl
-      · exact args_expr ha tk h
-end
-
 theorem tk_cons {t : PExp} {ts : List Tok} {items : List Item} (hk : Tk t ts items) : ∃ tk tl, ts = tk :: tl := by
-  cases hd : ts with
-  | cons tk tl => exact ⟨tk, tl, rfl⟩
-  | nil =>
-    exfalso
-    rw [hd] at hk
-    have := parse_tk hk
-    simp [parseToks, parseFuel, parseExp, collect, optUnary, leaf] at this
+  obtain ⟨tk, tl, e, _⟩ := tk_head hk
+  exact ⟨tk, tl, e⟩
 
 /-- one rendered expression followed by a terminator is read back -/
 theorem expAt_tk {t : PExp} {ts : List Tok} {items : List Item} (hk : Tk t ts items) {rest : List Tok} (hc : Closed rest) :
     expAt (ts ++ rest) = .ok (t, rest) :=
-  parseExp_of_main (tk_main hk).1 hk.toIR hc _ (by simp [parseFuel]; omega)
+  parseExp_of_main (tk_main hk).1 hk.toIR hc _ (by simp [parseFuel])
 
 theorem skipNl_tk {t : PExp} {ts : List Tok} {items : List Item} (hk : Tk t ts items) (rest : List Tok) :
-    skipNl (ts ++ rest) = ts ++ rest := by
-  obtain ⟨tk, tl, rfl⟩ := tk_cons hk
-  exact skipNl_expr (tk_expr hk tk (by simp)) _
+    skipNl (ts ++ rest) = ts ++ rest := skipNl_start (tk_head hk) rest
 
+/-- a rendered line the constraint rule reads back.  `name_nofor` / `lhs_nofor`: the line does not begin with a word
+that reads `for` in some letter case — `for_iteration = _{ ^"for" ~ … }` is matched in any letter case, and the line
+could be taken for the iteration of the line before it (`x >= 1␤FOR and IN - y >= 0`) -/
 structure LineOk (l : Line) : Prop where
   name_ok : ∀ n, l.name = some n → isKeyword n = false
   lhs_tk : ∃ items, Tk l.lhs l.ltoks items
   rhs_tk : ∀ c r rt, l.cmp = some (c, r, rt) → ∃ items, Tk r rt items
+  name_nofor : ∀ n, l.name = some n → lowerWord n ≠ "for"
+  lhs_nofor : ∀ w, headName l.lhs = some w → lowerWord w ≠ "for"
 
-theorem parseConstraint_line {l : Line} (h : LineOk l) (rest : List Tok) :
+theorem LineOk.nofor {l : Line} (h : LineOk l) : NotForHead l.toks := by
+  obtain ⟨_, ⟨il, hl⟩, _, hn, hw⟩ := h
+  unfold Line.toks
+  cases hnm : l.name with
+  | none =>
+    simp only [List.nil_append]
+    exact notForHead_tk hl hw _
+  | some n =>
+    intro w r e
+    simp only [List.cons_append, List.nil_append, List.append_assoc] at e
+    injection e with e1 _
+    injection e1 with e1
+    subst e1
+    exact hn n hnm
+
+theorem parseConstraint_line {l : Line} (h : LineOk l) (rest : List Tok) (hnf : ¬ ForLike (.nl :: rest)) :
     parseConstraint (l.toks ++ .nl :: rest) = .ok (l.pc, .nl :: rest) := by
-  obtain ⟨hn, ⟨il, hl⟩, hr⟩ := h
+  obtain ⟨hn, ⟨il, hl⟩, hr, _, _⟩ := h
   obtain ⟨name, lhs, ltoks, cmp⟩ := l
   simp only at hn hl hr
+  have hof := optFor_none hnf
   have hbody : ∀ nm, constraintBody nm (ltoks ++ (tailToks cmp ++ .nl :: rest)) =
       .ok ({ name := nm, lhs := lhs, cmp := tailCmp cmp, rhs := tailRhs cmp, logic := cmp.isNone,
              iterVars := [], iters := [] }, .nl :: rest) := by
@@ -121,56 +60,73 @@ theorem parseConstraint_line {l : Line} (h : LineOk l) (rest : List Tok) :
     | none =>
       simp only [tailToks, tailCmp, tailRhs, List.nil_append]
       rw [expAt_tk hl (closed_nl rest)]
-      simp [cmpOfTok]
+      simp [cmpOfTok, hof]
     | some crt =>
       obtain ⟨c, r, rt⟩ := crt
       obtain ⟨ir, hrk⟩ := hr c r rt rfl
       simp only [tailToks, tailCmp, tailRhs, List.cons_append]
-      rw [expAt_tk hl (closed_of_term (cmpTok_term c) _)]
+      rw [expAt_tk hl (closed_cmp c _)]
       simp only [cmpOfTok_cmpTok]
       rw [expAt_tk hrk (closed_nl rest)]
-      simp
+      simp [hof]
   unfold parseConstraint Line.toks Line.pc
   cases name with
   | none =>
     have hcn : constraintName (ltoks ++ (tailToks cmp ++ .nl :: rest))
-        = (none, ltoks ++ (tailToks cmp ++ .nl :: rest)) := by
+        = .ok (none, ltoks ++ (tailToks cmp ++ .nl :: rest)) := by
       cases cmp with
-      | none => simpa [tailToks] using constraintName_none (x := .nl) (tail := rest) (tk_cons hl) (tk_expr hl) (by simp)
+      | none => simpa [tailToks] using constraintName_none hl (x := .nl) (tail := rest) (by simp) (by simp)
       | some crt =>
         obtain ⟨c, r, rt⟩ := crt
-        have := constraintName_none (x := cmpTok c) (tail := rt ++ .nl :: rest) (tk_cons hl) (tk_expr hl)
-          (by cases c <;> simp [cmpTok])
+        have := constraintName_none hl (x := cmpTok c) (tail := rt ++ .nl :: rest)
+          (by cases c <;> simp [cmpTok]) (by cases c <;> simp [cmpTok])
         simpa [tailToks] using this
     simp only [List.nil_append, List.append_assoc, Option.map_none]
     rw [hcn]
     exact hbody none
   | some n =>
     have hk := hn n rfl
-    simp only [List.cons_append, List.nil_append, List.append_assoc, constraintName, hk, Option.map_some]
-    simp only [Bool.false_eq_true, if_false, skipNl_tk hl]
+    have hcn := nameAt_plain hk (.colon :: (ltoks ++ (tailToks cmp ++ .nl :: rest))) (by intro tl e; cases e)
+    simp only [List.cons_append, List.nil_append, List.append_assoc, constraintName, Option.map_some]
+    rw [hcn]
+    simp only [skipNl_tk hl]
     exact hbody (some (.plain n))
 
-theorem skipNl_line {l : Line} (h : LineOk l) (rest : List Tok) : skipNl (l.toks ++ rest) = l.toks ++ rest := by
-  obtain ⟨_, ⟨il, hl⟩, _⟩ := h
+theorem line_head {l : Line} (h : LineOk l) : ∃ tk tl, l.toks = tk :: tl ∧ startTok tk = true := by
+  obtain ⟨_, ⟨il, hl⟩, _, _, _⟩ := h
   unfold Line.toks
   cases l.name with
-  | none => simp only [List.nil_append, List.append_assoc]; exact skipNl_tk hl _
-  | some n => simp [skipNl]
+  | none => simp only [List.nil_append]; exact start_append (tk_head hl) _
+  | some n => simp only [List.cons_append, List.nil_append, List.append_assoc]; exact ⟨_, _, rfl, rfl⟩
+
+theorem skipNl_line {l : Line} (h : LineOk l) (rest : List Tok) : skipNl (l.toks ++ rest) = l.toks ++ rest :=
+  skipNl_start (line_head h) rest
+
+/-- what follows a line in the list: the next line or what follows the list -/
+theorem nextLine_notFor : ∀ (ls : List Line), (∀ l ∈ ls, LineOk l) → ∀ (X : List Tok), StopsC X →
+    skipNl (linesToks ls ++ X) = linesToks ls ++ X ∧ NotForHead (linesToks ls ++ X)
+  | [], _, X, hX => by simpa [linesToks] using (stopsC_spec hX).2
+  | l :: ls, h, X, hX => by
+    have hl := h l List.mem_cons_self
+    obtain ⟨tk, tl, hh, hs⟩ := line_head hl
+    simp only [linesToks, List.append_assoc, List.cons_append]
+    exact ⟨skipNl_line hl _, notFor_append hl.nofor (by rw [hh]; simp) _⟩
 
 theorem loopLines : ∀ (ls : List Line), (∀ l ∈ ls, LineOk l) → ∀ (X : List Tok) (acc : List PConstraint) (f : Nat),
     StopsC X → ls.length < f →
     parseConstraints f (.nl :: (linesToks ls ++ X)) acc = .ok (acc ++ ls.map Line.pc, .nl :: X)
   | [], _, X, acc, f, hX, hf => by
     obtain ⟨f', rfl⟩ : ∃ f', f = f' + 1 := ⟨f - 1, by simp at hf; omega⟩
-    obtain ⟨h1, h2⟩ := stopsC_spec hX
+    obtain ⟨h1, h2, _⟩ := stopsC_spec hX
     simp [parseConstraints, linesToks, skipNl, h2, h1]
   | l :: ls, h, X, acc, f, hX, hf => by
     obtain ⟨f', rfl⟩ : ∃ f', f = f' + 1 := ⟨f - 1, by simp at hf; omega⟩
     have hc := h l List.mem_cons_self
-    have ih := loopLines ls (fun d hd => h d (List.mem_cons_of_mem _ hd)) X (acc ++ [l.pc]) f' hX (by simp at hf; omega)
+    have hls := fun d hd => h d (List.mem_cons_of_mem _ hd)
+    have ih := loopLines ls hls X (acc ++ [l.pc]) f' hX (by simp at hf; omega)
+    obtain ⟨hn1, hn2⟩ := nextLine_notFor ls hls X hX
     simp only [parseConstraints, linesToks, skipNl, List.append_assoc, List.cons_append]
-    rw [skipNl_line hc, parseConstraint_line hc]
+    rw [skipNl_line hc, parseConstraint_line hc _ (notForLike_nl hn1 hn2)]
     simp only [ih]
     simp
 
@@ -181,44 +137,97 @@ theorem linesToks_len : ∀ (ls : List Line), ls.length ≤ (linesToks ls).lengt
 theorem firstLines {l : Line} {ls : List Line} (h : ∀ d ∈ l :: ls, LineOk d) (X : List Tok) (hX : StopsC X) :
     parseConstraints ((linesToks (l :: ls) ++ X).length + 1) (linesToks (l :: ls) ++ X) [] = .ok ((l :: ls).map Line.pc, .nl :: X) := by
   have hc := h l List.mem_cons_self
+  have hls := fun d hd => h d (List.mem_cons_of_mem _ hd)
   have hlen : ls.length < (linesToks (l :: ls) ++ X).length := by
     have := linesToks_len ls
     simp [linesToks]; omega
+  obtain ⟨hn1, hn2⟩ := nextLine_notFor ls hls X hX
   simp only [parseConstraints, linesToks, List.append_assoc, List.cons_append]
-  rw [skipNl_line hc, parseConstraint_line hc]
-  have := loopLines ls (fun d hd => h d (List.mem_cons_of_mem _ hd)) X [l.pc] _ hX (by simpa [linesToks] using hlen)
+  rw [skipNl_line hc, parseConstraint_line hc _ (notForLike_nl hn1 hn2)]
+  have := loopLines ls hls X [l.pc] _ hX (by simpa [linesToks] using hlen)
   simpa [linesToks] using this
 
-/-- **Whole programs, any rendering**: objective, at least one constraint line, `define` block. -/
+theorem line_buildErr {l : Line} (h : LineOk l) : l.pc.buildErr = none := by
+  obtain ⟨_, ⟨il, hl⟩, hr, _, _⟩ := h
+  unfold PConstraint.buildErr Line.pc
+  apply firstErr_none
+  intro x hx
+  simp only [List.mem_cons, List.not_mem_nil, or_false] at hx
+  rcases hx with rfl | rfl | rfl | rfl
+  · cases l.name <;> rfl
+  · rfl
+  · exact tk_valid hl
+  · cases hc : l.cmp with
+    | none => simp [tailRhs, buildErr]
+    | some crt =>
+      obtain ⟨c, r, rt⟩ := crt
+      obtain ⟨ir, hrk⟩ := hr c r rt hc
+      simpa [tailRhs] using tk_valid hrk
+
+/-- what the PEG phase reads of the objective line -/
+def rawObj (kind : ObjKind) (obj : PExp) : RawObjective :=
+  RawObjective.mk kind.text (match kind with | .solve => none | _ => some obj)
+
+/-- **Whole programs, any rendering**: objective, at least one constraint line, `define` block.  No line and no
+declaration begins with a word that reads `for` (`LineOk.nofor`, `hdn`). -/
 theorem parseProgram_lines (kind : ObjKind) (obj : PExp) (otoks : List Tok)
     (hobj : match kind with | .solve => obj = .bool true | _ => ∃ items, Tk obj otoks items)
-    (l : Line) (ls : List Line) (hls : ∀ d ∈ l :: ls, LineOk d) (ds : List PDomain) (hds : ∀ d ∈ ds, WFd d) :
+    (l : Line) (ls : List Line) (hls : ∀ d ∈ l :: ls, LineOk d) (ds : List PDomain) (hds : ∀ d ∈ ds, WFd d)
+    (hdn : ∀ d ∈ ds, NotForHead (domainToks d)) :
     parseProgram (progToksOf kind otoks (l :: ls) ds) = .ok (progOf kind obj (l :: ls) ds) := by
+  have hdx : ∀ d ∈ ds, WFdx d := fun d hd => wfd_wfdx (hds d hd) (hdn d hd)
   have hdecl : declToks ds = declToksL [] ds := by simp [declToks, declToksL]
-  unfold progToksOf progOf
-  rw [hdecl]
-  have hO : ∀ T, parseObjective (skipNl (objToks kind otoks ++ .nl :: T)) = .ok (kind, obj, .nl :: T) := by
-    intro T
+  have hraw : parseProgramRaw (progToksOf kind otoks (l :: ls) ds)
+      = .ok (RawProgram.mk (rawObj kind obj) ((l :: ls).map Line.pc) [] (ds.map rawDomain)) := by
+    unfold progToksOf
+    rw [hdecl]
+    have hO : ∀ T, parseObjective (skipNl (objToks kind otoks ++ .nl :: T))
+        = .ok (rawObj kind obj, .nl :: T) := by
+      intro T
+      cases kind with
+      | solve =>
+        have h1 : (lowerWord "solve" == "min") = false := by decide
+        have h2 : (lowerWord "solve" == "max") = false := by decide
+        have h3 : (lowerWord "solve" == "solve") = true := by decide
+        simp [objToks, skipNl, parseObjective, ObjKind.text, rawObj, h1, h2, h3]
+      | min =>
+        obtain ⟨items, hk⟩ := hobj
+        have h1 : (lowerWord "min" == "min") = true := by decide
+        simp only [objToks, List.cons_append, skipNl, parseObjective, h1, Bool.true_or, if_true]
+        rw [expAt_tk hk (closed_nl T)]
+        rfl
+      | max =>
+        obtain ⟨items, hk⟩ := hobj
+        have h1 : (lowerWord "max" == "max") = true := by decide
+        simp only [objToks, List.cons_append, skipNl, parseObjective, h1, Bool.or_true, if_true]
+        rw [expAt_tk hk (closed_nl T)]
+        rfl
+    unfold parseProgramRaw
+    rw [hO]
+    simp only [needNl, skipNl]
+    have hsk : skipNl (linesToks (l :: ls) ++ declToksL [] ds) = linesToks (l :: ls) ++ declToksL [] ds := by
+      simp only [linesToks, List.append_assoc, List.cons_append]
+      exact skipNl_line (hls l List.mem_cons_self) _
+    rw [hsk, firstLines hls _ (decl_stops [] ds)]
+    exact parse_decls [] ds (by simp) hdx _ _
+  have hbo : buildObjective (rawObj kind obj) = .ok (kind, obj) := by
     cases kind with
-    | solve =>
-      simp only at hobj; subst hobj
-      simp [objToks, skipNl, parseObjective]
-    | min =>
-      obtain ⟨items, hk⟩ := hobj
-      simp only [objToks, List.cons_append, skipNl, parseObjective, beq_self_eq_true, if_true]
-      rw [expAt_tk hk (closed_nl T)]
+    | solve => simp only at hobj; subst hobj; simp [buildObjective, ObjKind.text, rawObj]
+    | min => obtain ⟨items, hk⟩ := hobj; simp [buildObjective, ObjKind.text, rawObj, tk_valid hk]
     | max =>
       obtain ⟨items, hk⟩ := hobj
       have : ("max" == "min") = false := by decide
-      simp only [objToks, List.cons_append, skipNl, parseObjective, this, beq_self_eq_true, if_true, Bool.false_eq_true, if_false]
-      rw [expAt_tk hk (closed_nl T)]
+      simp [buildObjective, ObjKind.text, rawObj, tk_valid hk]
+  have hb := buildProgram_ok (raw := RawProgram.mk (rawObj kind obj) ((l :: ls).map Line.pc) [] (ds.map rawDomain)) hbo
+    (by
+      intro c hc
+      simp only [List.mem_map] at hc
+      obtain ⟨d, hd, rfl⟩ := hc
+      exact line_buildErr (hls d hd))
+    (by intro k hk; cases hk) (buildDomains_raw ds hdx)
   unfold parseProgram
-  rw [hO]
-  simp only [needNl, skipNl]
-  have hsk : skipNl (linesToks (l :: ls) ++ declToksL [] ds) = linesToks (l :: ls) ++ declToksL [] ds := by
-    simp only [linesToks, List.append_assoc, List.cons_append]
-    exact skipNl_line (hls l List.mem_cons_self) _
-  rw [hsk, firstLines hls _ (decl_stops [] ds)]
-  exact parse_decls [] ds (by simp) hds kind obj _
+  rw [hraw]
+  simp only [hb]
+  rfl
 
 end Rooc.Syntax.Proofs
